@@ -329,6 +329,32 @@ class ConnGen:
         sent = d.chance(0.5)
         return dict(sent=sent, iface=self.iface_of(oid), id=oid, name=d.choice(FREE_NAMES), args=args)
 
+    def step_newer(self, d):
+        """a message the shipped descriptions do not know although they know the interface (the program speaks a newer
+        protocol version): an unknown message name, or a known message with extra trailing arguments"""
+        P = protocols()
+        pool = sorted(i for i, t in self.live.items() if t in P and t not in ('wl_display', 'wl_registry'))
+        if not pool:
+            return None
+        oid = d.choice(pool)
+        iface = self.live[oid]
+        extra = []
+        for _ in range(d.int(0, 3)):
+            k = d.int(0, 4)
+            if k == 0: extra.append(['int', d.int(-5, 5)])
+            elif k == 1: extra.append(['uint', d.choice(U32)])
+            elif k == 2: extra.append(['str', d.choice(STRS)])
+            elif k == 3: extra.append(['fixed', d.int(-1000, 1000)])
+            else: extra.append(['obj', 'wl_x', None])
+        msgs = [m for m in P[iface].msgs if all(a.type not in ('object', 'new_id') for a in m.args)]
+        if msgs and d.chance(0.5):
+            pm = d.choice(msgs)
+            m = self._protocol_message(d, oid, iface, pm)
+            if m is not None:
+                m['args'] += extra or [['uint', 1]]
+                return m
+        return dict(sent=self.sent(d.chance(0.5)), iface=iface, id=oid, name=d.choice(['future_request', 'set_v99_thing', 'new', 'frob']), args=extra)
+
     def step_deep_reuse(self, d):
         """delete and re-create the same client id (towards incarnation letters beyond z)"""
         pool = sorted(i for i in self.dead if i < SERVER_BASE and i not in self.live)
@@ -348,7 +374,7 @@ class ConnGen:
                 m = self.step_first(d)
                 self.nmsg += 1
                 return m
-        w = self.profile.get('weights') or dict(delete=14, bind=12, message=40, server_event=10, deep=0, sync=4, enum=8, title=6, retype=6)
+        w = self.profile.get('weights') or dict(delete=14, bind=12, message=40, server_event=10, deep=0, sync=4, enum=8, title=6, retype=6, newer=4)
         if kind is None:
             kind = d.weighted([(v, k) for k, v in sorted(w.items()) if v > 0])
         m = None
@@ -360,6 +386,7 @@ class ConnGen:
         elif kind == 'title': m = self.step_title(d)
         elif kind == 'retype': m = self.step_retype(d)
         elif kind == 'kinds': m = self.step_kinds(d)
+        elif kind == 'newer': m = self.step_newer(d)
         elif kind == 'sync': m = self.step_sync(d)
         elif kind == 'first' and 2 not in self.live and 2 not in self.dead: m = self.step_first(d)
         if m is None:
